@@ -159,6 +159,10 @@ func c04Gen(t *rapid.T) SeqCase {
 			steps = append(steps, afterGone(t, []string{"h1", "h2"}, c04Step)...)
 			continue
 		}
+		if rapid.IntRange(0, 19).Draw(t, "retype") == 0 {
+			steps = append(steps, afterRetype(t, []string{"h1", "h2"}, c04Step)...)
+			continue
+		}
 		steps = append(steps, c04Step(t))
 	}
 	return SeqCase{Steps: steps}
